@@ -98,7 +98,8 @@ def build(release=False, mode="dyn"):
 STRACE_SYSCALLS = "mmap,munmap,clone,clone3,set_tid_address,exit,exit_group"
 
 
-def run_probe(chk, bindir, name, script, strace=False, inject=None, timeout=120, cpus=None, trace=None):
+def run_probe(chk, bindir, name, script, strace=False, inject=None, timeout=120, cpus=None, trace=None,
+              launcher=None, rlimits=None):
     """Run the probe on `script` (list of lines).  A hang of the probe process itself (beyond its
     own watchdog) is data too: the process is killed and the run is marked `killed`."""
     d = os.path.join(chk.work, "runs")
@@ -118,6 +119,9 @@ def run_probe(chk, bindir, name, script, strace=False, inject=None, timeout=120,
         if inject:
             pre += ["-e", "inject=" + inject]
         cmd = pre + cmd
+    if launcher:
+        # e.g. ["chrt", "-f", "10"]: process-wide scheduling policy, inherited by every thread
+        cmd = list(launcher) + cmd
     if cpus:
         # confine the whole process (and the tracer) to a CPU set: preemption-driven interleavings
         cmd = ["taskset", "-c", cpus] + cmd
@@ -127,10 +131,17 @@ def run_probe(chk, bindir, name, script, strace=False, inject=None, timeout=120,
     r.script = script
     r.inject = inject
     r.cpus = cpus
+    r.launcher = launcher
+    r.rlimits = rlimits
     t0 = time.time()
     # own session: a hung probe (threads possibly in uninterruptible waits) is killed as a whole
     # process group, and never waited for without a deadline
-    p = subprocess.Popen(cmd, stdout=subprocess.DEVNULL, stderr=subprocess.DEVNULL, start_new_session=True)
+    def pre():
+        import resource
+        for res_name, val in (rlimits or {}).items():
+            resource.setrlimit(getattr(resource, res_name), (val, val))
+    p = subprocess.Popen(cmd, stdout=subprocess.DEVNULL, stderr=subprocess.DEVNULL, start_new_session=True,
+                         preexec_fn=pre if rlimits else None)
     try:
         r.rc = p.wait(timeout=timeout)
     except subprocess.TimeoutExpired:
@@ -411,6 +422,9 @@ def normalise(run):
             cur_spawn = t
             batch_threads += 1
             t.raw.append(e)
+            if e.get("ck") == 1:
+                # the closure owns a token whose destructor reports itself
+                emit(t, {"e": "tok"})
             t.arr_h.append(("60", e["seq"]))
         elif ev == "spawn_ret":
             t = threads.get(e["k"])
@@ -541,6 +555,10 @@ def normalise(run):
                 t.arr_h.append(("done", e["seq"]))
                 emit(t, {"e": "ret", "op": "drop", "res": "-", "val_ok": True, "eff_ok": True, "hb": False}, e)
             h_cur = None
+        elif ev == "tokdrop":
+            t = threads.get(e["k"])
+            if t:
+                emit(t, {"e": "tokdrop"}, e)
         elif ev == "cap":
             t = threads.get(e["k"])
             if t:
